@@ -228,15 +228,16 @@ theorem C01_py_alignment_oracle_sound : LrSound lenRes := lenRes_sound
 /-- The little-endian NumPy oracles of the driver obey the NumPy laws. -/
 theorem C01_py_numpy_oracles_lawful : NpSound stdEnv := stdEnv_np
 
-/-- The IEEE float operations of the driver obey the CPython float laws: the emitted saturation text followed by
-`struct.pack` with its `OverflowError` fallback is the specification's `narrow`; `struct.unpack` is `widen`; a
-decoded float passes the setter's range check. -/
+/-- The IEEE float operations of the driver obey the CPython float laws: the emitted `isfinite` / compare saturation
+text followed by `struct.pack` with its `OverflowError` fallback is the specification's `narrow` (both cast modes,
+binary16 / 32 / 64 — the rounding at the overflow threshold is the content); `struct.unpack` is `widen`; a decoded
+float passes the range check of the generated setter. -/
 theorem C01_py_float_oracles_lawful : FloatSound stdEnv := stdEnv_float
 
 /-- All hypotheses of the refinement theorems hold for the environment the driver `genpy` executes. -/
 theorem C01_py_driver_env_sound : EnvSound stdEnv := ⟨lenRes_sound, stdEnv_float, stdEnv_np⟩
 
-/-- The driver's `ser` answers are the specification's. -/
+/-- The driver's `ser` answers are the specification's — no hypothesis left. -/
 theorem C01_py_driver_serialize (t : Ty) (v : Val) (hw : wf t = true) (hpw : pyWf t = true)
     (hc : topLevel t = true) (hdom : inDom false t v = true) :
     serializePy stdEnv t v = match serBytes t v with
@@ -244,7 +245,7 @@ theorem C01_py_driver_serialize (t : Ty) (v : Val) (hw : wf t = true) (hpw : pyW
       | .error e => .error (excOf e) :=
   C01_py_serialize_refines_spec stdEnv C01_py_driver_env_sound t v hw hpw hc hdom
 
-/-- The driver's `de` answers are the specification's. -/
+/-- The driver's `de` answers are the specification's — no hypothesis left. -/
 theorem C02_py_driver_deserialize (t : Ty) (bytes : Buf) (hw : wf t = true) (hpw : pyWf t = true)
     (hc : topLevel t = true) (hwf : WF bytes) :
     deserializePy stdEnv t bytes = match deBytes t bytes with
@@ -260,22 +261,22 @@ def exTy : Ty :=
 
 def exVal : Val := .struct [.int 5, .arr [.int (-3), .int 200], .struct [.int 100, .arr [.int 7]]]
 
-example : wf exTy = true ∧ pyWf exTy = true ∧ topLevel exTy = true := by decide
+example : wf exTy = true ∧ pyWf exTy = true ∧ topLevel exTy = true := by decide +kernel
 -- the element 200 of `int5[]` lives in an `int8` array only up to 127: not admitted …
-example : inDom false exTy exVal = false := by decide
+example : inDom false exTy exVal = false := by decide +kernel
 -- … -3 and 100 are; 100 is saturated to 15 by the emitted `max(min(x, 15), -16)`
 example : inDom false exTy (.struct [.int 5, .arr [.int (-3), .int 100], .struct [.int 100, .arr [.int 7]]]) = true := by
-  decide
+  decide +kernel
 example : serializePy stdEnv exTy (.struct [.int 5, .arr [.int (-3), .int 100], .struct [.int 100, .arr [.int 7]]])
-    = .ok [0x15, 0xe8, 0x3d, 0x03, 0x00, 0x00, 0x00, 0x64, 0x01, 0x07] := by decide
-example : deserializePy stdEnv exTy [0x15, 0xe8, 0x3d, 0x03, 0x00, 0x00, 0x00, 0x64, 0x01, 0x07]
-    = .ok (some (.struct [.int 5, .arr [.int (-3), .int 15], .struct [.int 100, .arr [.int 7]]], 10)) := by decide
+    = .ok [0x15, 0xe8, 0x0f, 0x03, 0x00, 0x00, 0x00, 0xe4, 0x80, 0x03] := by decide +kernel
+example : deserializePy stdEnv exTy [0x15, 0xe8, 0x0f, 0x03, 0x00, 0x00, 0x00, 0xe4, 0x80, 0x03]
+    = .ok (some (.struct [.int 5, .arr [.int (-3), .int 15], .struct [.int 100, .arr [.int 7]]], 10)) := by decide +kernel
 -- over-long array: the emitted assert
 example : serializePy stdEnv exTy (.struct [.int 5, .arr [.int 0, .int 0, .int 0], .struct [.int 0, .arr []]])
-    = .error .assertion := by decide
+    = .error .assertion := by decide +kernel
 -- delimiter header larger than the remaining data ⇒ `None`; truncated input ⇒ zero extension
-example : deserializePy stdEnv exTy [0x15, 0xe8, 0x3d, 0x09, 0x00, 0x00, 0x00, 0x64] = .ok none := by decide
+example : deserializePy stdEnv exTy [0x15, 0xe8, 0x0f, 0x09, 0x00, 0x00, 0x00, 0xe4] = .ok none := by decide +kernel
 example : deserializePy stdEnv exTy [0x15]
-    = .ok (some (.struct [.int 5, .arr [.int 0, .int 0], .struct [.int 0, .arr []]], 1)) := by decide
+    = .ok (some (.struct [.int 5, .arr [.int 0, .int 0], .struct [.int 0, .arr []]], 1)) := by decide +kernel
 
 end NunavutVerif.GenPy
